@@ -279,6 +279,8 @@ class ImplRun:
         self.nested_into = {}     # circuit index -> set of circuit indices it was (transitively) nested into
         self.meas_reg = {}        # id(measurement original) -> circuit index of its registry
         self.shadow_broken = False
+        self.handle_shadow = {}     # handle of a placed sub-circuit -> its shadow object inside the parent's shadow
+        self.adopted = False
         self.twins = {}           # circuit index -> earlier wrapper objects around the SAME structure (apply_modifiers() and
                                   # flatten() return a new DeclarativeCircuit sharing the structure modified in place)
 
@@ -444,7 +446,9 @@ class ImplRun:
             assert self.circs[cmd[1]].get_last_entry() is ret
             self.handles.append(ret)
             import copy as _copy
-            self.shadow[cmd[1]]['items'].append(('sub', _copy.deepcopy(self.shadow[cmd[2]])))
+            sh = _copy.deepcopy(self.shadow[cmd[2]])
+            self.shadow[cmd[1]]['items'].append(('sub', sh))
+            self.handle_shadow[len(self.handles) - 1] = sh
         elif k == 'adopt':
             # the nested copy a `sub` returned, kept by the caller and added to later: addressable as a circuit of its own
             obj = self.handles[cmd[1]]
@@ -452,8 +456,15 @@ class ImplRun:
             d = a.DeclarativeCircuit()
             d._structure = obj
             self.circs.append(d)
-            self.shadow.append({'rep': 'f1', 'items': []})
-            self.shadow_broken = True      # the shadow of the parent no longer follows what is added through the handle
+            sh = self.handle_shadow.get(cmd[1])
+            if sh is not None:
+                # the parent's shadow holds this very object: what is added through the handle is expected in the parent's listing
+                # (seeded change C02-m9: a listing cached per wrapper loses exactly these operations)
+                self.shadow.append(sh)
+                self.adopted = True
+            else:
+                self.shadow.append({'rep': 'f1', 'items': []})
+                self.shadow_broken = True      # the shadow of the parent no longer follows what is added through the handle
         elif k == 'list':
             return self.observe_list(cmd[1])
         elif k == 'dur':
@@ -476,6 +487,9 @@ class ImplRun:
             if self.clear_cache:
                 clear_caches()
             self.shadow[cmd[1]] = self.shadow_unroll(self.shadow[cmd[1]])
+            self.handle_shadow.clear()       # placed copies may be replaced by the unrolling: later adoptions are not followed
+            if self.adopted:
+                self.shadow_broken = True
             self.twins.setdefault(cmd[1], []).append(self.circs[cmd[1]])
             self.circs[cmd[1]] = self.circs[cmd[1]].apply_modifiers()
         elif k == 'flatten':
@@ -483,6 +497,9 @@ class ImplRun:
                 clear_caches()
             self.twins.setdefault(cmd[1], []).append(self.circs[cmd[1]])
             self.circs[cmd[1]] = self.circs[cmd[1]].flatten()
+            self.handle_shadow.clear()
+            if self.adopted:
+                self.shadow_broken = True
             sh = self.shadow[cmd[1]]
             self.shadow[cmd[1]] = {'rep': sh['rep'], 'items': list(shadow_leaves(sh))}
         elif k == 'copy':
